@@ -371,7 +371,9 @@ def instances(tier):
     # unequal first / last mode sizes (the boundary terms of the defining equation differ)
     for n, r in [([3, 2, 2], 2), ([1, 2, 3], [1, 1, 2, 1]), ([2, 2, 1, 3], 2)]:
         out.append({'func': 'h_erank', 'params': {'n': n, 'r': r}, 'opts': {'raw': False}})
-    pairs = [([2, 2], 1, 2), ([2, 2, 2], 2, [1, 1, 2, 1]), ([1, 2], 3, 1)]
+    # (the last two: rank profiles that cross along the chain, so that neither operand has the larger core everywhere)
+    pairs = [([2, 2], 1, 2), ([2, 2, 2], 2, [1, 1, 2, 1]), ([1, 2], 3, 1),
+             ([1, 1, 1], [1, 2, 3, 1], [1, 3, 2, 1]), ([2, 1, 1], [1, 2, 2, 1], [1, 1, 3, 1])]
     if not quick:
         pairs += [([3, 2, 2], 2, 3), ([2, 2, 2, 2], 2, 2)]
     for n, r1, r2 in pairs:
